@@ -85,6 +85,8 @@ EmitFull == Cardinality(Ids) = MaxEv => EmitState
 \* simulation targets: behaviours are cut (and the DAG emitted) where the interesting situation first appears
 \* one event elected Atropos of two consecutive frames (a root that passed several frames at once)
 NoRepeatedAtropos == (\A i \in 1..(Len(blocks) - 1) : blocks[i].atr # blocks[i + 1].atr) \/ (EmitState /\ FALSE)
+\* a validator listed as cheater by one block and not by the next (the next Atropos does not descend from the fork observation)
+NoCheaterDrop == (\A i \in 1..(Len(blocks) - 1) : blocks[i].ch \subseteq blocks[i + 1].ch) \/ (EmitState /\ FALSE)
 NoTie == ~HasTie(ev, anc) \/ (EmitState /\ FALSE)
 NoLateDecision == ~HasLateDecision(ev, anc) \/ (EmitState /\ FALSE)
 =============================================================================
